@@ -11,6 +11,9 @@ func libSuite(prop string) Suite {
 			if prop == "C02" && i%6 == 5 {
 				return genXffBoundary(r, prop)
 			}
+			if prop == "C05" && ((tier != "thorough" && i%50 == 49) || (tier == "thorough" && i%200 == 199)) {
+				return genHugeBatch(r, prop)
+			}
 			g := newLibGen(r, prop, i%5 == 4)
 			steps := 6 + r.Intn(10)
 			if tier == "thorough" {
